@@ -437,16 +437,17 @@ func reservedKeyList() []string {
 }
 
 type sysPlan struct {
-	static     bool // spec.replicas set: no instance-type requirement is injected by ToNodeClaim
-	unmanaged  bool // nodeClassRef of a kind the provider does not support
-	overlay    bool // the catalogue carries price / capacity overlays
-	defaultTGP bool // provscheduling.DefaultTerminationGracePeriod is set
-	recreate   bool // the pool is deleted and re-created under the same name before the claim is built
-	preEdits   int
-	tmplLabels map[string]string
-	poolReqs   []kcall
-	podReqs    []kcall
-	scenario   string
+	static          bool // spec.replicas set: no instance-type requirement is injected by ToNodeClaim
+	unmanaged       bool // nodeClassRef of a kind the provider does not support
+	overlay         bool // the catalogue carries price / capacity overlays
+	defaultTGP      bool // provscheduling.DefaultTerminationGracePeriod is set
+	tmplAnnotations bool // spec.template.metadata.annotations is non-empty from the start
+	recreate        bool // the pool is deleted and re-created under the same name before the claim is built
+	preEdits        int
+	tmplLabels      map[string]string
+	poolReqs        []kcall
+	podReqs         []kcall
+	scenario        string
 }
 
 func runSys(c *kit.Ctx, r *kit.Rand, plan sysPlan) {
@@ -455,6 +456,9 @@ func runSys(c *kit.Ctx, r *kit.Rand, plan sysPlan) {
 	nodeClass.Name = "default"
 	np := &v1.NodePool{ObjectMeta: metav1.ObjectMeta{Name: "pool", UID: types.UID("pool-uid")}}
 	np.Spec.Template.Labels = plan.tmplLabels
+	if plan.tmplAnnotations {
+		np.Spec.Template.Annotations = map[string]string{"example.com/owner": "team-a"}
+	}
 	for _, k := range plan.poolReqs {
 		np.Spec.Template.Spec.Requirements = append(np.Spec.Template.Spec.Requirements, k.nsr())
 	}
@@ -569,8 +573,34 @@ func runSys(c *kit.Ctx, r *kit.Rand, plan sysPlan) {
 	_, poolStamped := np.Annotations[v1.NodePoolHashAnnotationKey]
 	c.Count(fmt.Sprintf("build:pool-annotated=%v,annotation-stale=%v", poolStamped, poolStamped && np.Annotations[v1.NodePoolHashAnnotationKey] != builtFrom))
 
+	// ---- a batch: several templates / claims are built from the SAME in-memory pool object (static provisioning scaling
+	// up by several replicas, drift replacement of several candidates). Building is read-only: it must not change
+	// Hash() of the object it was given, and every build is stamped with that hash. The claim followed below is the LAST.
+	builds := r.Range(1, 3)
+	c.Count(fmt.Sprintf("build:batch=%d,template-annotations=%v", builds, len(np.Spec.Template.Annotations) > 0))
+	for i := 1; i < builds; i++ {
+		earlier := provscheduling.NewNodeClaimTemplate(np)
+		earlier.InstanceTypeOptions = e.cp.InstanceTypes
+		var enc *v1.NodeClaim
+		if panicked, _ := kit.Recover(func() { enc = earlier.ToNodeClaim() }); panicked {
+			continue
+		}
+		in := map[string]interface{}{"kind": "batch-build", "build": i, "of": builds, "template_annotations": np.Spec.Template.Annotations,
+			"hash_before_any_build": builtFrom, "hash_of_pool_object_now": np.Hash(), "claim_annotations": enc.Annotations}
+		if h := np.Hash(); h != builtFrom {
+			c.Fail(c.NextID(), fmt.Sprintf("NewNodeClaimTemplate/ToNodeClaim changed Hash() of the NodePool object it was given: %s -> %s after build %d of %d", builtFrom, h, i, builds), "", in)
+		}
+		if enc.Annotations[v1.NodePoolHashAnnotationKey] != builtFrom || enc.Annotations[v1.NodePoolHashVersionAnnotationKey] != v1.NodePoolHashVersion {
+			c.Fail(c.NextID(), fmt.Sprintf("claim %d of a batch of %d is not stamped with the hash of the template it was built from (%s): %v", i, builds, builtFrom, enc.Annotations), "", in)
+		}
+	}
+
 	// ---- the scheduler's part: template, pod requirements, instance type options, ToNodeClaim
 	nct := provscheduling.NewNodeClaimTemplate(np)
+	if h := np.Hash(); h != builtFrom {
+		c.Fail(c.NextID(), fmt.Sprintf("NewNodeClaimTemplate changed Hash() of the NodePool object it was given: %s -> %s (build %d of %d)", builtFrom, h, builds, builds), "",
+			map[string]interface{}{"kind": "batch-build", "build": builds, "of": builds, "template_annotations": np.Spec.Template.Annotations, "hash_before_any_build": builtFrom, "hash_of_pool_object_now": h})
+	}
 	var podApplied []kcall
 	for _, p := range plan.podReqs {
 		extra := scheduling.NewRequirements(p.req())
@@ -1202,6 +1232,7 @@ func genPlan(r *kit.Rand, scenario string) sysPlan {
 	}
 	p.static, p.unmanaged, p.overlay, p.defaultTGP = r.Chance(1, 8), r.Chance(1, 25), r.Chance(1, 6), r.Chance(1, 8)
 	p.recreate = r.Chance(1, 6)
+	p.tmplAnnotations = r.Bool()
 	for i, n := 0, r.Intn(3); i < n; i++ {
 		p.tmplLabels[kit.Pick(r, []string{k1, k2, k3, k3})] = kit.Pick(r, customVals)
 	}
